@@ -20,6 +20,7 @@ import (
 	"runtime"
 	"sort"
 	"strings"
+	"sync"
 	"time"
 	"unicode/utf8"
 
@@ -56,6 +57,7 @@ type obsEvent struct {
 	ptr      *auditevent.AuditEvent
 	Bad      string `json:"bad,omitempty"`
 	Failed   bool   `json:"write_failed,omitempty"` // the writer rejected this event: attempted, not emitted
+	raw      string // the event as the daemon's writer would serialise it (encoding/json), "" if that failed
 }
 
 // emitted returns the events the writer accepted (what the daemon's output would hold).
@@ -91,6 +93,15 @@ type encRec struct {
 	seq      *int
 	at       []int
 	wrote    chan struct{} // if non-nil: signalled (non-blocking) after every Encode
+	mu       sync.Mutex    // events / at: Encode may run while another goroutine looks (mode slow)
+	onWrite  func()        // if non-nil: called at the beginning of every Encode (mode slow: time of the write)
+}
+
+// snapshot: the events recorded so far (for a goroutine other than the one inside the processor).
+func (e *encRec) snapshot() []obsEvent {
+	e.mu.Lock()
+	defer e.mu.Unlock()
+	return append([]obsEvent(nil), e.events...)
 }
 
 // begin resets the per-line record of the long-lived encoder.
@@ -99,6 +110,9 @@ func (e *encRec) begin(mode runMode, seq *int) {
 }
 
 func (e *encRec) Encode(v any) error {
+	if e.onWrite != nil {
+		e.onWrite()
+	}
 	*e.seq++
 	ev, ok := v.(*auditevent.AuditEvent)
 	if !ok {
@@ -154,13 +168,17 @@ func (e *encRec) Encode(v any) error {
 	// is a write error there, so it is one here
 	var serr error
 	if !failNow {
-		if _, err := json.Marshal(ev); err != nil {
+		if b, err := json.Marshal(ev); err != nil {
 			serr = fmt.Errorf("event cannot be serialised: %w", err)
+		} else {
+			o.raw = string(b)
 		}
 	}
 	o.Failed = failNow || serr != nil
+	e.mu.Lock()
 	e.events = append(e.events, o)
 	e.at = append(e.at, *e.seq)
+	e.mu.Unlock()
 	if e.wrote != nil {
 		select {
 		case e.wrote <- struct{}{}:
@@ -485,7 +503,7 @@ func main() {
 	prop := flag.String("prop", "C06", "property")
 	replay := flag.String("replay", "", "replay file")
 	modeFlag := flag.String("mode", "", "\"\" = generated lines on the long-lived processor; slow = hand-offs nobody takes for a while (C05); stall = records reaching the real FIFOs in pieces with pauses (C07)")
-	delays := flag.String("delays", "150,700,1500", "mode slow: milliseconds during which nobody receives, comma separated")
+	delays := flag.String("delays", "150,700,2500", "mode slow: milliseconds during which nobody receives, comma separated")
 	stalls := flag.String("stalls", "200,600,1200", "mode stall: milliseconds the writer pauses inside a record, comma separated")
 	per := flag.Int("per", 3, "mode stall: cases per pause length and pipe")
 	flag.Parse()
@@ -832,7 +850,10 @@ func doReplay(path, prop string) int {
 		return 0
 	}
 	if rp.Replay.Slow != nil {
-		return replaySlow(*rp.Replay.Slow)
+		if rp.Property != "" {
+			prop = rp.Property
+		}
+		return replaySlow(prop, *rp.Replay.Slow)
 	}
 	if rp.Replay.Stall != nil {
 		return replayStall(*rp.Replay.Stall)
